@@ -100,6 +100,10 @@ def materialise(case):
         # the same annotation listed twice (exact duplicate, as plasmid editors export them)
         import copy
         feats.insert(rdup.randint(0, len(feats)), copy.deepcopy(rdup.choice(feats)))
+    for f in feats:
+        # fuzzy positions (<5, >8, (5.8), 5^8, one-of(5,8)) on one feature in five: they denote the same nucleotides as exact ones
+        if f["parts"] is not None and rdup.random() < 0.2:
+            f["fuzzy"] = gen.fuzzy_kinds(rdup, len(f["parts"]))
     if rdup.random() < 0.12:
         # a feature without any location, somewhere in the table (after a located one, so that a stale location would show)
         feats.insert(rdup.randint(0, len(feats)), {"type": "unlocated", "parts": None, "quals": {"uid": ["noloc"], "note": ["nowhere"]}})
